@@ -2,6 +2,7 @@ package gov
 
 import (
 	"fmt"
+	"os"
 	"strconv"
 	"go/token"
 	"go/types"
@@ -60,6 +61,16 @@ func (fr *Frame) calleeNames(cc *ssa.CallCommon) []string {
 	}
 	if fn := cc.StaticCallee(); fn != nil {
 		o := fr.fnOrigin(fn)
+		if fr.R.Eng.monitorFor(fn) != nil {
+			// a call of a monitor's via-function is also known by the name of the action literal it runs
+			for _, a := range cc.Args {
+				if mc, ok := a.(*ssa.MakeClosure); ok {
+					names = append(names, mc.Fn.Name())
+				} else if f, ok := a.(*ssa.Function); ok && f.Parent() != nil {
+					names = append(names, f.Name())
+				}
+			}
+		}
 		names = append(names, o.Name(), fr.R.fnShort(o))
 		if o.Pkg != nil {
 			names = append(names, o.Pkg.Pkg.Name()+"."+o.Name())
@@ -340,6 +351,13 @@ func (fr *Frame) dispatchCall(instr ssa.Instruction, cc *ssa.CallCommon, pos tok
 		fr.R.note("dynamic call of %s: heap havocked", strings.Join(names, "/"))
 		return fr.havocCall(cc, args, true, pos)
 	}
+	if fr.R.action != nil && fn == fr.R.action {
+		// the action under verification is always executed, never approximated
+		if len(fn.FreeVars) != len(bindings) {
+			fr.R.unsupported("action literal %s: captured variables not available", fn)
+		}
+		return fr.inlineCall(fn, args, bindings, pos)
+	}
 	if sk := fr.sortedKeysIdiom(fn, cc); sk != nil {
 		return *sk
 	}
@@ -365,7 +383,11 @@ func (fr *Frame) dispatchCall(instr ssa.Instruction, cc *ssa.CallCommon, pos tok
 	inMod := o.Pkg != nil && eng.InModule(o.Pkg.Pkg)
 	if inMod || (o.Pkg == nil && len(fn.Blocks) > 0 && fn.Parent() != nil) {
 		fr.R.note("call of %s (no contract, not inlinable): heap havocked", fr.R.fnShort(o))
-		return fr.havocCall(cc, args, true, pos)
+		// module code may touch monitor-protected state it is handed: nothing is preserved
+		fr.noKeep = true
+		v := fr.havocCall(cc, args, true, pos)
+		fr.noKeep = false
+		return v
 	}
 	full := o.String()
 	pkgPath := ""
@@ -568,6 +590,10 @@ func (fr *Frame) inlineCall(fn *ssa.Function, args []Val, bindings []Val, pos to
 	fr.R.inlineStack = append(fr.R.inlineStack, fn)
 	rg, out, results := nf.runBody(fr.st, fr.cur)
 	fr.R.inlineStack = fr.R.inlineStack[:len(fr.R.inlineStack)-1]
+	if os.Getenv("GOV_DEBUG_MERGE") != "" {
+		_, has := out.heap["F.jsonrpc2.Connection.state"]
+		fmt.Fprintf(os.Stderr, "INLINE %s: rets=%d out.epoch=%d hasState=%v rg=%s\n", fn.Name(), len(nf.rets), out.epoch, has, rg.S)
+	}
 	fr.st = out
 	fr.cur = rg
 	if rg.S == "false" {
@@ -597,6 +623,13 @@ func (fr *Frame) havocResultNoBump(sig *types.Signature) Val {
 
 // ctxHere is an evaluation context over the current state with the frame's entry names in scope.
 func (fr *Frame) ctxHere() *EvalCtx {
+	if r := fr.R; r.action != nil && fr.Fn == r.action && r.monVars != nil {
+		vars := map[string]EV{}
+		for k, v := range r.monVars {
+			vars[k] = v
+		}
+		return &EvalCtx{fr: fr, st: fr.st, old: r.topFrame.entry, vars: vars, pkgPath: r.monitor.PkgPath, contract: r.Contract}
+	}
 	vars := map[string]EV{}
 	for n, v := range fr.names {
 		vars[n] = valToEV(v, fr.nameTys[n])
@@ -709,7 +742,11 @@ func (fr *Frame) applyContractVars(c *Contract, fn *ssa.Function, cc *ssa.CallCo
 	// effects
 	switch {
 	case c.ModAll:
+		if fn != nil && !c.Trusted {
+			fr.noKeep = true
+		}
 		fr.havocAllHeap()
+		fr.noKeep = false
 	default:
 		if c.HavocExt {
 			for _, n := range fr.R.Heap.Names() {
